@@ -663,9 +663,19 @@ func (ck *checker) soloRun(cs *core.Case, replayPath string, timeout time.Durati
 	cmd := exec.Command(bin, args...)
 	tag := fmt.Sprintf("solo-%d", time.Now().UnixNano())
 	cmd.Env = ck.workerEnv(race, procs, tag)
-	var so, se bytes.Buffer
-	cmd.Stdout = &so
-	cmd.Stderr = &se
+	// fd 1 and fd 2 of every worker are regular files owned by the orchestrator (C15 attributes
+	// bytes printed by the library to the exact operation by their sizes)
+	soPath, sePath := filepath.Join(buildDir, tag+".stdout"), filepath.Join(buildDir, tag+".stderr")
+	so, _ := os.OpenFile(soPath, os.O_CREATE|os.O_WRONLY|os.O_TRUNC, 0o644)
+	se, _ := os.OpenFile(sePath, os.O_CREATE|os.O_WRONLY|os.O_TRUNC, 0o644)
+	defer func() {
+		so.Close()
+		se.Close()
+		os.Remove(soPath)
+		os.Remove(sePath)
+	}()
+	cmd.Stdout = so
+	cmd.Stderr = se
 	pr, pw, _ := os.Pipe()
 	cmd.ExtraFiles = []*os.File{pw}
 	cmd.SysProcAttr = &syscall.SysProcAttr{Setpgid: true}
@@ -694,17 +704,18 @@ func (ck *checker) soloRun(cs *core.Case, replayPath string, timeout time.Durati
 	pr.Close()
 	werr := cmd.Wait()
 	fired := !timer.Stop()
-	tail := se.String()
+	tailb, _ := os.ReadFile(sePath)
+	tail := string(tailb)
 	if len(tail) > 12000 {
 		tail = tail[:12000]
 	}
 	if outLine != "" {
-		var so struct {
+		var sout struct {
 			Outcome *core.Outcome       `json:"outcome"`
 			Lanes   map[string][]uint64 `json:"lanes"`
 		}
-		if json.Unmarshal([]byte(outLine), &so) == nil {
-			return so.Outcome, so.Lanes, "returned", tail
+		if json.Unmarshal([]byte(outLine), &sout) == nil {
+			return sout.Outcome, sout.Lanes, "returned", tail
 		}
 	}
 	if hangSite != "" {
